@@ -106,7 +106,12 @@ class Run:
         ev = self.ev2 if odd else self.ev
         setter = self.model.set_cell_value if odd else ev.set_cell_value
         if kind == 'set':
-            self.last_obs = lib.observe(setter, op[1], op[2])
+            target = op[1]
+            if self.pos % 3 == 0:
+                # the third spelling of the address: a cell object
+                target = lib.XLCell(op[1], None)
+                setter = self.model.set_cell_value
+            self.last_obs = lib.observe(setter, target, op[2])
             self.inputs[op[1]] = op[2]
         elif kind == 'setn':
             self.last_obs = lib.observe(setter, op[1], op[2])
@@ -190,6 +195,8 @@ def check_last(spec, hist, ctx, count_from=0):
     # get_cell_value of every input = last value set; and reading is pure
     before = run.fp()
     for a in spec.inputs:
+        if run.inputs[a] is None:
+            continue        # not a cell of the model yet
         g = lib.observe(run.ev.get_cell_value, a)
         ctx.check(key + '#get/' + a, g, lib.norm(run.inputs[a]),
                   ['oracle:get-input'], inputs, False)
